@@ -607,6 +607,41 @@ func (w *World) afterOp(op Op, logPos []int) {
 	if w.CheckLedger {
 		w.checkLedgerNow(op.Kind)
 	}
+	if w.CheckPins {
+		w.checkPinsReleased(op.Kind)
+	}
+}
+
+// checkPinsReleased: between operations, with no snapshot handle of a
+// store left unclosed, nothing pins any version: the current version of
+// every collection is referenced exactly once (hook).
+func (w *World) checkPinsReleased(kind string) {
+	w.quiesce()
+	for _, h := range w.Stores {
+		if h == nil || h.Snap || h.Closed || h.S == nil || h.needReopen {
+			continue
+		}
+		pinned := false
+		for _, o := range w.Stores {
+			if o != nil && o.Snap && o.Origin == h.ID && !o.Closed {
+				pinned = true
+			}
+		}
+		if pinned {
+			continue
+		}
+		for _, name := range h.M.Names() {
+			c := h.S.GetCollection(name)
+			if c == nil {
+				continue
+			}
+			if refs, _ := gkvlite.VerifRootRefs(c); refs != 1 {
+				w.fail("pin-not-released", kind, "s%d/%q: after %s returned, with no snapshot open and nothing in flight, the current version is referenced %d times (want 1): a visit, iterator or lookup never released its pin", h.ID, name, kind, refs)
+				return
+			}
+		}
+		w.probe("pins-checked")
+	}
 }
 
 // checkOpenReads (C19): when the image ends in a root record, opening
